@@ -17,6 +17,7 @@ From Coq Require Import ZArith List Bool.
 From Tickit Require Import RectDefs WinRectSet WinDefs WinSpec WinHist WinExposeProofs WinFlushProofs WinLogDisjoint WinRectSetProofs WinC02Extra WinC02Exact WinC02Disjoint.
 From Tickit Require RBDefs RBSpec RBAbsLemmas RBFlushDefs RBTermSim.
 From Tickit Require Import WinRBView WinRBExpose WinEndToEnd WinEndToEndFinal.
+From Tickit Require Import WinBrackets.
 Import ListNotations.
 Local Open Scope Z_scope.
 
@@ -198,6 +199,23 @@ Print Assumptions C02_buffer_is_spec.
 Theorem C02_programs_are_spec : forall app progs, app_ok app -> hsim (prog_handler app progs) (c_hp app progs).
 Proof. exact hsim_prog_f. Qed.
 Print Assumptions C02_programs_are_spec.
+
+(* handlers that bracket their drawing in tickit_renderbuffer_savepen / save ... restore (harness:
+   BR id k): balanced brackets around drawing-only programs -- around the whole program, around
+   every call, nested in any way -- change nothing (the model therefore ignores them).  [rb_eq]:
+   all fields equal, cells and masks pointwise; [masks_le_depth b] (part of [pre]): no mask of b is
+   deeper than b's depth; [run_bops]: a program with arbitrarily nested brackets *)
+Theorem C02_brackets_neutral : forall app prog id handed b,
+  masks_le_depth b ->
+  rb_eq (rb_restore (run_prog app prog id handed (rb_save b))) (run_prog app prog id handed b).
+Proof. exact brackets_neutral. Qed.
+Print Assumptions C02_brackets_neutral.
+
+Theorem C02_brackets_nested_neutral : forall app id handed l b,
+  masks_le_depth b ->
+  rb_eq (run_bops app id handed l b) (run_prog app (flat_map bop_draws l) id handed b).
+Proof. exact brackets_nested_neutral. Qed.
+Print Assumptions C02_brackets_nested_neutral.
 
 Example C02_nonvacuous :
   exists st tm, let '(_, tm', lg) := win_flush no_defects (prog_handler app_base (fun _ => [DText (-1) (-2) 9; DPaint])) st tm in
